@@ -595,6 +595,27 @@ def both_answers(summ: Summary) -> bool:
     return {True, False} <= consts
 
 
+def helper_origins(fn_node, helpers, depth=0):
+    """call origins of what a private helper returns / yields (through its own locals)"""
+    orig = name_origins(fn_node)
+    out = set()
+    for r in ast.walk(fn_node):
+        if isinstance(r, (ast.Return, ast.Yield, ast.YieldFrom)) and r.value is not None:
+            for n in ast.walk(r.value):
+                if isinstance(n, ast.Name):
+                    out |= {o for o in orig.get(n.id, set()) if o.startswith("call:")}
+                elif isinstance(n, ast.Call):
+                    nm = n.func.attr if isinstance(n.func, ast.Attribute) else getattr(n.func, "id", None)
+                    if nm:
+                        out.add("call:" + nm)
+    if depth < 2:
+        for o in list(out):
+            h = (helpers or {}).get(o[5:])
+            if h is not None and o[5:].startswith("_") and h is not fn_node:
+                out |= helper_origins(h, helpers, depth + 1)
+    return out
+
+
 def name_origins(fn_node):
     """name -> set of names and call origins ('call:<callee attr or name>') it may derive from through the assignments
     of the function (flow-insensitive; tuple unpacking spreads the value to every target)."""
@@ -607,6 +628,8 @@ def name_origins(fn_node):
             targets, value = [s.target], s.value
         elif isinstance(s, ast.NamedExpr):
             targets, value = [s.target], s.value
+        elif isinstance(s, (ast.For, ast.comprehension)):
+            targets, value = [s.target], s.iter          # the loop variable derives from what is iterated
         if value is None:
             continue
         src = {n.id for n in ast.walk(value) if isinstance(n, ast.Name)}
